@@ -336,7 +336,7 @@ class ToyMul(ToyBase):
                 return OK("outside:order-unknown,k<0:" + ("value-ok" if ok and got == exp else "EXC" if not ok else "value-differs"))
             if not ok or got != exp:
                 return BAD("wrong-multiple" if ok else "exception", "%s = %s" % (name, show(exp)), "%s = %s" % (name, show(got) if ok else v),
-                           n=3, clause="multiply", impl=impl, kclass=kclass(k, n))
+                           n=3, clause="multiply", target=impl, kclass=kclass(k, n))
         return OK(cls + ("" if impl != "curve-noorder" else ":order-unknown"), n=3)
 
     def nontrivial(self, cls):
